@@ -117,16 +117,17 @@ Fixpoint rf_inner (sinv : Q -> Q) (ts : list rf_term) (xs : list Q) : C :=
   | _, _ => c0
   end.
 
-Definition rf_component (sinv : Q -> Q) (center : C) (amplitude : Q) (num_terms : Z)
+(* fullsum * amplitude / (num_terms * input_dim) + center   (input_dim: the closure variable of gen_sample) *)
+Definition rf_component (sinv : Q -> Q) (input_dim : nat) (center : C) (amplitude : Q) (num_terms : Z)
            (rows : list (list rf_term)) (xs : list Q) : C :=
   let fullsum := csum_list (map (fun ts => rf_inner sinv ts xs) rows) in
-  cadd (cscale (amplitude / inject_Z num_terms) fullsum) center.
+  cadd (cscale (amplitude / (inject_Z num_terms * inject_Z (Z.of_nat input_dim))) fullsum) center.
 
 (* random_function( *args ): None = ConfigError (wrong number of arguments) *)
 Definition rf_eval (sinv : Q -> Q) (input_dim : nat) (center : C) (amplitude : Q) (num_terms : Z)
            (f : rf_fn) (xs : list Q) : option (list C) :=
   if Nat.eqb (length xs) input_dim
-  then Some (map (fun rows => rf_component sinv center amplitude num_terms rows xs) f)
+  then Some (map (fun rows => rf_component sinv input_dim center amplitude num_terms rows xs) f)
   else None.
 
 (* shape of the raw draw np.random.rand(output_dim, num_terms, input_dim) *)
